@@ -319,4 +319,25 @@ theorem survival_history_auto (C : Cfg) (hC : wfB C = true) (s : St) (hs : C05.R
   exact (keep_foldl _ _ (fun n => n < C.nets.length) (fun n hn => List.mem_range.mp (List.mem_filter.mp hn).1)
     (fun x n hn hk => keep_mgLoopA C w m p n hm hn hmode hpar x dt cm hk) _ k2).2
 
+open Relsad.Control in
+/-- **The flag "this network has a failed line" is up only while one of its lines is failed — also over histories in which
+sensors and intelligent switches fail by themselves** (increments `stepD`: sensors that need time, false alarms of sensors
+under repair, failed switches): the quantity that keeps a SURVIVAL microgrid separated is never stale, so once the last
+failed line of the hosting network is repaired the hold ends. -/
+theorem failed_line_flag_never_stale_devices (C : Cfg) (hC : wfB C = true) (hC2 : wfB2 C = true) (s : St) (hs : C05.ReachD C s)
+    (n : Nat) (hn : n < C.nets.length) (hflag : gb s.netFailed n = true) :
+    ∃ l ∈ (netOf C n).lines, gb s.failed l = true := by
+  have w := WF.of_wfB C hC
+  have w2 := WF2.of_wfB2 C hC2
+  have nf : NF C s := by
+    clear hflag
+    induction hs with
+    | init => exact NF.init C
+    | fail s l rep _ hl _ ih => exact ih.afterFail w l hl rep
+    | step s dt _ _ ih => exact ih.step w w2 dt
+    | stepA s dt cm _ _ ih => exact ih.stepA w w2 dt cm
+    | spread s S _ ih => exact ih.spread S
+    | stepD s dt cd swF _ _ ih => exact ih.afterStepD w w2 dt cd swF
+  exact nf.why n hn hflag
+
 end Relsad.C14
